@@ -14,6 +14,7 @@ from .vals import (Val, NONE, I, B, R, Z, Func, Closure, Bound, Cls, Builtin, Tu
                    py_pow, tb_of, list_owner, PENDING, RUNNING, CANCELLED, CANCELLED_AND_NOTIFIED, FINISHED)
 from .state import State, Frame, Event, FRESH_BASE, INPUT_LO, FUT_ARRAYS, SPECIAL, monotone, future_type_inv
 
+UNSET = ref(-999)          # value of an instance attribute that was never assigned, or deleted
 CONTAINER_CLASSES = ("list", "deque", "tuple", "dict", "set")
 EXC_TYPES = ("exc",)
 
@@ -676,6 +677,14 @@ class Engine(object):
             if c not in st.private:
                 continue
             st.private.discard(c)
+            cn_ = st.objcls.get(c)
+            if cn_ in self.repo.classes and any(rc == cn_ for (rc, _lf) in self.cfg.region_inv):
+                # the object becomes visible to other threads: from here on its monitor invariants are assumed at every acquire, so
+                # whoever created it has to have established them by now
+                for (rc, rlf), rinv in sorted(self.cfg.region_inv.items(), key=lambda kv: (str(kv[0][0]), str(kv[0][1]))):
+                    if rc == cn_:
+                        for (nm, f) in rinv(self, st, Z(ref(c), ("inst", cn_))):
+                            self.oblige(st, None, "monitor invariant %s.%s established before the new object is shared: %s" % (cn_, rlf, nm), "MI", f)
             # anything stored in fields of c escapes too (conservative scan of store chains)
             for name, arr in st.heap.items():
                 a = arr
@@ -1136,6 +1145,9 @@ class Engine(object):
             return
         if name in self.instance_fields(cname) or ci.namedtuple_fields and name in ci.namedtuple_fields:
             ty = self.field_type(cname, name)
+            if z3.simplify(st.get(self.heap_key(cname, name), oid)).eq(UNSET):
+                yield st, Raise(self.new_exc(st, "AttributeError", "%s object has no attribute %s (never assigned, or deleted)" % (cname, name)))
+                return
             pend = st.ghost.get("ctor_ty")
             if pend and any(p[2] == name and p[3].eq(oid) for p in pend):
                 # read inside the constructor of a field whose type invariant is not established yet: the declared type is
@@ -1209,6 +1221,9 @@ class Engine(object):
         if isinstance(o, (Func, Closure)) or (isinstance(o, Z) and o.ty in ("callable", "any")):
             # attribute stores on function objects (update_wrapper): modelled by builtins
             yield st, None
+            return
+        if o is None:
+            yield st, Raise(self.new_exc(st, "AttributeError", "'NoneType' object has no attribute %s" % name))
             return
         raise Unsupported("setattr(%r, %s)" % (o, name))
 
@@ -1336,6 +1351,13 @@ class Engine(object):
         oid = st.alloc(ci.name)
         st.assume(cls_of(z3.IntVal(oid)) == ci.tag)
         obj = Z(ref(oid), ("inst", ci.name))
+        # a new object has no instance attributes: every field starts out unset (reading it raises AttributeError, and a field with
+        # a declared type that is still unset at constructor exit fails its type invariant)
+        unset_fields = set(self.instance_fields(ci.name))
+        for c_ in ci.mro:
+            unset_fields |= {kf for (kc, kf) in self.cfg.field_types if kc == c_.name}
+        for f_ in sorted(unset_fields):
+            st.put(self.heap_key(ci.name, f_), oid, UNSET)
         if self.repo.lookup_method(ci.name, "__call__")[1] is not None:
             st.assume(is_callable(ref(oid)))
         c, init = self.repo.lookup_method(ci.name, "__init__")
@@ -1538,6 +1560,13 @@ class Engine(object):
                                             self.oblige(s1, nfr, "type-invariant %s.%s" % (cn, kf), "TY",
                                                         self.ty_formula(s1, s1.get(self.heap_key(cn, kf), Val.id(selfv.t)), kty),
                                                         info={"at": "constructor exit: the field was never assigned"})
+                                # ... and every monitor invariant of the new object holds before anybody can take its locks (it is assumed
+                                # at each acquire, so the constructor has to establish it)
+                                for (rc, rlf), rinv in sorted(self.cfg.region_inv.items(), key=lambda kv: (str(kv[0][0]), str(kv[0][1]))):
+                                    if rc == cn and self.concrete_id(selfv.t) in s1.private:
+                                        for (nm, f) in rinv(self, s1, selfv):
+                                            self.oblige(s1, nfr, "monitor invariant %s.%s established by the constructor: %s" % (cn, rlf, nm), "MI", f,
+                                                        info={"at": "constructor exit"})
                     if (ctrl is None or ctrl[0] == "return") and s1.ghost.get("ctor_ty"):
                         mine = [p for p in s1.ghost["ctor_ty"] if p[0] == nfr.eid]
                         if mine:
@@ -1741,7 +1770,7 @@ class Engine(object):
                             yield s1, ("raise", o.exc)
                             continue
                         # `del self.x`: the field becomes unset; model as a distinguished value
-                        for s2, r in self.setattr(s1, fr, o, mangle(tgt.attr, fr.func.owner), Z(ref(-999), None), tgt):
+                        for s2, r in self.setattr(s1, fr, o, mangle(tgt.attr, fr.func.owner), Z(UNSET, None), tgt):
                             nxt.append(s2)
                 else:
                     raise Unsupported("del target")
